@@ -1501,6 +1501,8 @@ BW_MidiSequencer::MidiEvent BW_MidiSequencer::parseEvent(const uint8_t **pptr, c
 
         evt.type = byte;
         evt.subtype = evtype;
+        if(evtype > 0x7F) // Not a meta type of a file: must not alias the internal (custom) event codes
+            evt.subtype = MidiEvent::ST_SEQUENCERSPEC;
         evt.data.insert(evt.data.begin(), data.begin(), data.end());
 
 #if 0 /* Print all tempo events */
